@@ -39,8 +39,8 @@ type frame struct {
 
 type threadState struct {
 	started bool
-	done    bool   // probe.done seen
-	goDone  bool   // the Go side wait returned
+	done    bool   // probe.done seen: the thread has left its body (authoritative)
+	goDone  bool   // the Go side call (Eval / AddEventAndWait) returned
 	want    string // name the thread asked for and has not entered yet
 	parked  string // key of the rendezvous the thread is blocked on
 	stack   []frame
@@ -126,7 +126,7 @@ func (st *probeState) describe() string {
 	for i, t := range st.thr {
 		state := "not-started"
 		switch {
-		case t.done || t.goDone:
+		case t.done || (t.goDone && !t.started):
 			state = "finished"
 		case t.want != "":
 			state = "waiting-for-" + t.want
